@@ -143,8 +143,11 @@ func (obj *SparseReal32Vector) SLICE(i, j int) *SparseReal32Vector {
       break
     }
     k := it.Get()
-    r.values[k-i] = obj.values[k]
-    r.indexInsert(k-i)
+    // the index may contain positions without entry
+    if v, ok := obj.values[k]; ok {
+      r.values[k-i] = v
+      r.indexInsert(k-i)
+    }
   }
   return r
 }
